@@ -774,12 +774,18 @@ func Atomic(p unsafe.Pointer) { s := must(); s.point(request{kind: KAtomic, obj:
 
 // R is a probed read of *p, inserted by the instrumenter before the access.
 func R[T any](p *T, label string) {
+	if unsafe.Sizeof(*p) == 0 {
+		return // zero-size objects all share one address: not a location
+	}
 	s := must()
 	s.point(request{kind: KRead, obj: unsafe.Pointer(p), label: label})
 }
 
 // W is a probed write of *p, inserted by the instrumenter before the access.
 func W[T any](p *T, label string) {
+	if unsafe.Sizeof(*p) == 0 {
+		return
+	}
 	s := must()
 	s.point(request{kind: KWrite, obj: unsafe.Pointer(p), label: label})
 }
@@ -793,6 +799,10 @@ func AppendProbe[T any](sl []T, label string) {
 		return
 	}
 	s.keep = append(s.keep, sl) // keep every backing array alive: addresses are never reused within a run
+	var zero T
+	if unsafe.Sizeof(zero) == 0 {
+		return
+	}
 	if len(sl) < cap(sl) {
 		slot := &sl[: len(sl)+1 : len(sl)+1][len(sl)]
 		s.point(request{kind: KWrite, obj: unsafe.Pointer(slot), label: label + "[spare slot]"})
@@ -807,6 +817,10 @@ func ElemsProbe[T any](sl []T, label string) {
 		return
 	}
 	s.keep = append(s.keep, sl)
+	var zero T
+	if unsafe.Sizeof(zero) == 0 {
+		return
+	}
 	for i := range sl {
 		s.point(request{kind: KWrite, obj: unsafe.Pointer(&sl[i]), label: label + "[i]"})
 	}
